@@ -171,6 +171,14 @@ func (c *VCtx) sharedHavoc(st *State, before *State) {
 		case "once":
 			c.linkFact(T(SBool, fmt.Sprintf("(forall ((k %s)) (! (=> (not (= (select %s k) %s)) (= (select %s k) (select %s k))) :pattern ((select %s k)) :pattern ((select %s k))))", ks, old.S, g.zero, nw.S, old.S, nw.S, old.S)))
 		}
+		// nobody else can make a ghost map refer to an object that this call has not published yet
+		if _, vs := arrParts(g.sort); vs == SRef {
+			for _, r := range c.freshObjs {
+				if !c.isPublished(r) {
+					c.linkFact(T(SBool, fmt.Sprintf("(forall ((k %s)) (! (=> (= (select %s k) %s) (= (select %s k) %s)) :pattern ((select %s k))))", ks, nw.S, r.S, old.S, r.S, nw.S)))
+				}
+			}
+		}
 		// nobody else knows the cells that are still local to this call
 		cur := nw
 		if ks == SRef {
@@ -398,4 +406,35 @@ func (c *VCtx) atomicOrdinal(fr *Frame) int {
 		}
 	}
 	return n
+}
+
+// freshObjectGhost: no ghost map refers to an object that did not exist before (for monitor objects and the
+// monitor objects embedded in them): needed to establish quantified invariants of a new object.
+func (c *VCtx) freshObjectGhost(st *State, r *Term, t types.Type) {
+	if c.top == nil {
+		return
+	}
+	stt, ok := t.Underlying().(*types.Struct)
+	if !ok {
+		return
+	}
+	if c.objectSpec(t) != nil {
+		c.freshObjs = append(c.freshObjs, r)
+		for _, g := range c.ghostMaps() {
+			ks, vs := arrParts(g.sort)
+			if vs != SRef {
+				continue
+			}
+			h := c.heap(st, g.heap, g.sort)
+			c.fact(T(SBool, fmt.Sprintf("(forall ((k %s)) (! (not (= (select %s k) %s)) :pattern ((select %s k))))", ks, h.S, r.S, h.S)))
+		}
+	}
+	for i := 0; i < stt.NumFields(); i++ {
+		f := stt.Field(i)
+		if _, isTP := f.Type().(*types.TypeParam); !isTP && isStruct(f.Type()) {
+			if n, ok := f.Type().(*types.Named); ok && n.Obj().Pkg() != nil && strings.HasPrefix(n.Obj().Pkg().Path(), ModPath) {
+				c.freshObjectGhost(st, c.embedAddr(r, t, f.Name(), f.Type()), f.Type())
+			}
+		}
+	}
 }
